@@ -39,33 +39,42 @@ pub fn sim_guard<T>(f: impl FnOnce() -> T) -> Result<T, SimPanic> {
 /// bolero's test engine prints progress statistics with `println!` while an exhaustive run is
 /// in flight; stdout is reserved for the verdict lines, so it is pointed at stderr (the log
 /// file set up by run.sh) for the duration of a simulator call.
-struct StdoutToStderr {
-    saved: i32,
-}
+struct StdoutToStderr;
+
+/// (nesting depth over all threads, saved stdout descriptor)
+static REDIRECT: std::sync::Mutex<(usize, i32)> = std::sync::Mutex::new((0, -1));
 
 impl StdoutToStderr {
     fn new() -> Self {
         use std::io::Write;
-        let _ = std::io::stdout().flush();
-        // SAFETY: plain fd duplication on the process's own stdout/stderr
-        let saved = unsafe { libc::dup(1) };
-        if saved >= 0 {
-            unsafe { libc::dup2(2, 1) };
+        let mut g = REDIRECT.lock().unwrap_or_else(|e| e.into_inner());
+        if g.0 == 0 {
+            let _ = std::io::stdout().flush();
+            // SAFETY: plain fd duplication on the process's own stdout/stderr
+            let saved = unsafe { libc::dup(1) };
+            if saved >= 0 {
+                unsafe { libc::dup2(2, 1) };
+            }
+            g.1 = saved;
         }
-        StdoutToStderr { saved }
+        g.0 += 1;
+        StdoutToStderr
     }
 }
 
 impl Drop for StdoutToStderr {
     fn drop(&mut self) {
         use std::io::Write;
-        let _ = std::io::stdout().flush();
-        if self.saved >= 0 {
-            // SAFETY: restores the descriptor saved in `new`
+        let mut g = REDIRECT.lock().unwrap_or_else(|e| e.into_inner());
+        g.0 -= 1;
+        if g.0 == 0 && g.1 >= 0 {
+            let _ = std::io::stdout().flush();
+            // SAFETY: restores the descriptor saved by the outermost guard
             unsafe {
-                libc::dup2(self.saved, 1);
-                libc::close(self.saved);
+                libc::dup2(g.1, 1);
+                libc::close(g.1);
             }
+            g.1 = -1;
         }
     }
 }
